@@ -59,3 +59,23 @@ func init() {
 			"\t\tdefer delete(tx.Statement.Clauses, \"SELECT\")", "\t\tdefer func() { delete(tx.Statement.Clauses, \"SELECT\") }()"}}},
 	)
 }
+
+func init() {
+	addMutants(
+		Mutant{Name: "c15-batch-cursor-without-regroup", Property: "C15", Rule: "C15.cursor-group", Edits: []Edit{{"finisher_api.go",
+			"\t\t\t\tif orCond, ok := expr.(clause.OrConditions); ok && len(orCond.Exprs) == 1 {\n\t\t\t\t\twhere.Exprs = []clause.Expression{clause.And(where.Exprs...)}\n\t\t\t\t\tc.Expression = where\n\t\t\t\t\ttx.Statement.Clauses[\"WHERE\"] = c\n\t\t\t\t\tbreak\n\t\t\t\t}", "\t\t\t\t_ = expr"}},
+			Note: "reverts fix 0cba5d2"},
+		Mutant{Name: "c15-regroup-keeps-only-or-units", Property: "C15", Rule: "C15.cursor-group", Edits: []Edit{{"finisher_api.go",
+			"\t\t\t\t\twhere.Exprs = []clause.Expression{clause.And(where.Exprs...)}\n\t\t\t\t\tc.Expression = where\n\t\t\t\t\ttx.Statement.Clauses[\"WHERE\"] = c\n\t\t\t\t\tbreak", "\t\t\t\t\twhere.Exprs = []clause.Expression{clause.And(orCond.Exprs...)}\n\t\t\t\t\tc.Expression = where\n\t\t\t\t\ttx.Statement.Clauses[\"WHERE\"] = c\n\t\t\t\t\tbreak"}}},
+		Mutant{Name: "c15-map-scan-leaves-invalid-columns", Property: "C15", Rule: "C15.map-complete", Edits: []Edit{{"scan.go",
+			"\t\t} else {\n\t\t\tmapValue[column] = nil\n\t\t}", "\t\t}"}}},
+		Mutant{Name: "c16-save-zero-key-checks-first-primary-field", Property: "C16", Rule: "C16.save", Edits: []Edit{{"finisher_api.go",
+			"\t\t\tfor _, pf := range tx.Statement.Schema.PrimaryFields {\n\t\t\t\tif _, isZero := pf.ValueOf(tx.Statement.Context, reflectValue); isZero {\n\t\t\t\t\treturn tx.callbacks.Create().Execute(tx)\n\t\t\t\t}\n\t\t\t}", "\t\t\tif pfs := tx.Statement.Schema.PrimaryFields; len(pfs) > 0 {\n\t\t\t\tif _, isZero := pfs[0].ValueOf(tx.Statement.Context, reflectValue); isZero {\n\t\t\t\t\treturn tx.callbacks.Create().Execute(tx)\n\t\t\t\t}\n\t\t\t}"}}},
+		Mutant{Name: "c20-unique-name-published-from-go-name", Property: "C20", Rule: "C20.name-agree", Edits: []Edit{{"schema/constraint.go",
+			"name := schema.namer.UniqueName(schema.Table, field.DBName)", "name := schema.namer.UniqueName(schema.Table, field.Name)"}}},
+		Mutant{Name: "n44-find-in-batches-regroup-with-index-loop", Property: "*", Rule: "NEUTRAL", Edits: []Edit{{"finisher_api.go",
+			"\t\t\tfor _, expr := range where.Exprs {\n\t\t\t\tif orCond, ok := expr.(clause.OrConditions); ok && len(orCond.Exprs) == 1 {\n\t\t\t\t\twhere.Exprs = []clause.Expression{clause.And(where.Exprs...)}", "\t\t\tfor i := range where.Exprs {\n\t\t\t\tif orCond, isOr := where.Exprs[i].(clause.OrConditions); isOr && len(orCond.Exprs) == 1 {\n\t\t\t\t\twhere.Exprs = []clause.Expression{clause.And(where.Exprs...)}"}}},
+		Mutant{Name: "n45-map-scan-nil-first", Property: "*", Rule: "NEUTRAL", Edits: []Edit{{"scan.go",
+			"\t\tif reflectValue := reflect.Indirect(reflect.Indirect(reflect.ValueOf(values[idx]))); reflectValue.IsValid() {\n\t\t\tmapValue[column] = reflectValue.Interface()", "\t\tmapValue[column] = nil\n\t\tif reflectValue := reflect.Indirect(reflect.Indirect(reflect.ValueOf(values[idx]))); reflectValue.IsValid() {\n\t\t\tmapValue[column] = reflectValue.Interface()"}}},
+	)
+}
